@@ -7,13 +7,17 @@ CONSTANTS
   UfOps = {"add","subtract","less","equal","maximum","hypot","divmod","multiply"}
   Forms = {"call","outer","operator","iop","out","at","reduce_initial"}
   ArrFns = {"concatenate","where","clip","copyto_where"}
-  Fams = {"ufunc","arrfn","setitem","conv","unitop","hist"}
+  Fams = {"ufunc","arrfn","setitem","conv","unitop","hist","der"}
   SpUnits = {"la","K"}
   Hists = {"modify","readd","tworeg"}
   HUnits = {"la","lb","ta"}
   ArrForms = {"call","kw","kwall","out","kwout","lo","hi","kwlo","kwhi","alias","aliaslo","aliashi","aliasout","method","methodkw","methodlo","methodhi"}
   AliasOps = {"clip"}
   DlUnits = {"pc","nq","lr"}
+  DerUnits = {"la^1/3","la^33/100","la^4/3","la^2/3","la^1/2","la^2/1","la^-1/1","la^1/1.ta^-1/1","la^-1/1.ta^1/1"}
+  DHists = {"computed"}
+  DArrFns = {"concatenate","where","clip","insert","putmask","isclose","searchsorted","array_equal","linspace","union1d"}
+  DepthForms = {}
 INIT Init
 NEXT NextAll
 INVARIANT Export
